@@ -24,7 +24,8 @@ rm -f /tmp/vs-$$.log
 cd /verif
 if [ -n "$(git -C /repo status --porcelain)" ]; then res "ABORT /repo not clean"; exit 2; fi
 git -C /repo apply "$SRC/patch.diff" || exit 2
-./run.sh "$ID" "$TIER" > /tmp/vs-$$.out 2>&1; RC=$?
+trap 'git -C /repo checkout -- . ; cleanup' EXIT INT TERM
+timeout 1500 ./run.sh "$ID" "$TIER" > /tmp/vs-$$.out 2>&1; RC=$?
 git -C /repo checkout -- . 
 NV=$(grep -c '^VIOLATION' /tmp/vs-$$.out)
 FIRST=$(grep -A2 '^VIOLATION' /tmp/vs-$$.out | head -3 | tr '\n' ' ' | cut -c1-400)
